@@ -84,6 +84,14 @@ def diagnostics_corpus():
     two = hunk(1, [b"l1", b"X"], [b"l1", b"Y"]) + hunk(5, [b"l5", b"X"], [b"l5", b"Y"])
     out.append(mk({b"f": F(body)}, two))
     out.append(mk({b"f": F(body)}, hunk(1, [b"l1", b"l2"], [b"l1", b"L2"]) + hunk(1, [b"l1", b"l2"], [b"l1", b"again"])))
+    # only zero-length files are loaded (statistics over nothing)
+    out.append({"files": {b"e1": F(b""), b"e2": F(b"")}, "dirs": [], "applied": None, "series": b"p.patch\nq.patch\n",
+                "patches": {b"p.patch": b"--- a/e1\n+++ b/e1\n@@ -0,0 +1 @@\n+x\n", b"q.patch": b"diff --git a/e2 b/e2\nold mode 100644\nnew mode 100755\n"}})
+    out.append({"files": {b"e1": F(b"")}, "dirs": [], "applied": None, "series": b"q.patch\n",
+                "patches": {b"q.patch": b"diff --git a/e1 b/e1\nold mode 100644\nnew mode 100755\n"}})
+    # placeholder patches: zero-length patch files, nothing at all is loaded
+    out.append({"files": {b"src/a.txt": F(b"one\ntwo\n")}, "dirs": [], "applied": None, "series": b"todo1.patch\ntodo2.patch\n",
+                "patches": {b"todo1.patch": b"", b"todo2.patch": b""}})
     # missing file, reversed entry that fails, rename onto an existing file
     out.append(mk({b"g": F(body)}, hunk(1, [b"l1", b"l2"], [b"l1", b"L2"])))
     w = mk({b"f": F(body)}, hunk(1, [b"l1", b"nope"], [b"l1", b"L2"]))
@@ -134,7 +142,8 @@ def run(ctx):
         reals.append(base)
         combos = [rand_presentation(rng) for _ in range(per)]
         if item is not None:
-            combos = [[], ["-v"], ["-vv"], ["--mmap"], ["-v", "--color", "always"]]      # every verbosity on the corpus
+            combos = [[], ["-v"], ["-vv"], ["--mmap"], ["-v", "--color", "always"], ["--mmap", "--stats"], ["--stats"],
+                      ["--stats", "-A", "multiapply"]]      # every verbosity and the statistics on the corpus
         for extra in combos:
             c2 = dict(cfg)
             c2["extra"] = extra
